@@ -119,8 +119,10 @@ func (s *vShard) post(url string, req interface{}, ret interface{}) error {
 // vNewShard creates the scripted sidecar number i. full: the complete health script (C08);
 // otherwise one of three kinds that the planner can distinguish: 0 not reachable, 1 reachable
 // but not in sync, 2 in sync.
+var vPrefix = "s" // name prefix of the shards being built (replica A: "a", replica B: "b")
+
 func vNewShard(i, K int, full bool, env int) *vShard {
-	p := "s" + zzv.Itoa(i)
+	p := vPrefix + zzv.Itoa(i)
 	s := &vShard{name: p, status: map[uint64]*target.ScrapeStatus{}}
 	if full {
 		s.ready = zzv.Bool(p + ".ready")
@@ -162,6 +164,12 @@ func vNewShard(i, K int, full bool, env int) *vShard {
 	if len(s.status) == 0 && zzv.Choose(p+".idle", 2) == 1 {
 		ago := zzvDuration(p + ".idleAgo")
 		zzv.Assume(0 <= ago && int64(ago) <= int64(1)<<51)
+		if vMargin != nil {
+			// keep the reported idle instant a second away from the expiry boundary, so that a
+			// native replay (whose clock runs on) sees the same side of it
+			d := ago - vMargin.MaxIdleTime
+			zzv.Assume(d > time.Second || d < -time.Second)
+		}
 		t := vBase.Add(-ago)
 		s.rt.IdleStartAt = &t
 	}
@@ -172,6 +180,7 @@ func vNewShard(i, K int, full bool, env int) *vShard {
 }
 
 var vBase time.Time // instant taken by the harness before the cycle starts
+var vMargin *Option  // options against which idle instants keep a replay margin (nil: none)
 
 type vManager struct {
 	shards     []*vShard
@@ -257,6 +266,7 @@ type vCycle struct {
 func vRunCycle(S, K int, full bool, env int) *vCycle {
 	cy := &vCycle{S: S, K: K}
 	cy.opt = vOption()
+	vMargin = cy.opt
 	vBase = time.Now()
 	cy.active = vActive(K)
 	cy.ex = vNewExplorer(K)
